@@ -7,7 +7,7 @@ CONSTANTS
  Dev = {"badevent", "status", "readerr", "partial", "dedup"}
  TrimOn = "match"
  Defect = "none"
- MaxFeeds = 3
+ MaxFeeds = 2
  MaxDials = 2
  MaxTime = 11
  MaxSubs = 1
